@@ -104,6 +104,19 @@ static std::string oracle(const Case& c) {
             msg = decode_case(ds[i].in, ds[i].coin, e == 1, le->lang, ds[i].label, 0, ds[i].fail); polyseed_enable_features(7); if (!msg.empty()) return msg;
         }
     }
+    // ---- the ambiguous-phrase exit of automatic detection (16 characters common to both Chinese lists; no valid check word needed)
+    {
+        const auto& wc = g::WordClasses::get(); const lib::LangEntry* zs = REG->by_name("Chinese (Simplified)");
+        if (zs && wc.zh_common.size() > 64) {
+            const lib::LibWords& lw = lib::lib_words(*zs); SplitMix sm(fnv1a(sec) ^ coin); std::vector<std::string> t; std::vector<unsigned> ix;
+            if (lw.ok) { for (int i = 0; i < 16; i++) { unsigned x = (unsigned)wc.zh_common[sm.below((uint32_t)wc.zh_common.size())]; ix.push_back(x); t.push_back(lw.w[x]); }
+                std::string amb = lib::join(t); static polyseed_data* d; static int dst; d = nullptr; const polyseed_lang* lo = nullptr;
+                on_stack([&]() { dst = (int)polyseed_decode(amb.c_str(), (polyseed_coin)coin, &lo, &d); });
+                std::vector<Pat> Q; Q.push_back({"the phrase text (ambiguous Chinese phrase)", amb, 12}); add_indices(Q, ix, "the 16 word indices");
+                msg = scan(Q, "decode (multiple languages)"); if (dst == 0) polyseed_free(d); if (!msg.empty()) return msg + " [status " + model::status_name(dst) + "]";
+                ev.count(std::string("exit:decode/") + model::status_name(dst)); }
+        }
+    }
     // ---- store / load (every exit path) / keygen / getters
     static polyseed_storage stg; on_stack([&]() { polyseed_store(seed, stg); }); msg = scan(P, "store"); if (!msg.empty()) return msg; ev.count("call:store");
     {
